@@ -315,11 +315,90 @@ def gen_traces(rng, nmsg, nlong, cxx=False):
     return behs
 
 
+# --------------------------------------------------------------------------
+# binding B, second family: messages sized around the consumers' internal buffers, every one in several cuts
+# (same bytes, same use: the answer recomputed by TLC from the contiguous string has to fit every cut)
+# --------------------------------------------------------------------------
+
+
+def limit_cuts(rng, total, lim, extra):
+    """Cuts of a message of `total` bytes whose payload meets a buffer of `lim` bytes: one piece, small / empty leading
+    piece, borders just below / at / above the limit, many pieces."""
+    cuts = [[total], [min(3, total), total - min(3, total)], [0, total]]
+    for b in (lim - 1, lim, lim + 1):
+        if 0 < b < total:
+            cuts.append([b, total - b])
+    if total > 8:
+        h = total // 2
+        cuts.append([h, 0, total - h])
+        cuts.append([1, 1, total - 2])
+    for _ in range(extra):
+        cuts.append(rand_cut(rng, total, 14) or [total])
+    return cuts
+
+
+def text_bytes(rng, n):
+    return [rng.choice(b"abcdefghijklmnopqrstuvwxyz0123456789.-") for _ in range(n)]
+
+
+def gen_limit_traces(rng, tier):
+    """Call sequences only.  For every consumer with a fixed internal buffer: payload sizes limit-2 .. limit+2 and
+    clearly larger ones x several cuts x the use (in the forms that matter)."""
+    full = tier != "quick"
+    extra = 3 if full else 0
+    behs = []
+
+    def add(data, lim, steps):
+        for cut in limit_cuts(rng, len(data), lim, extra):
+            behs.append([{"a": "init", "arg": {"data": data, "cut": cut}}] + [dict(a=a, arg=dict(arg)) for a, arg in steps])
+
+    def sizes(lim):
+        base = [lim - 2, lim - 1, lim, lim + 1, lim + 2]
+        return base + ([lim + 200, 2 * lim + 1] if full else [lim + rng.choice([100, 476])])
+
+    # mpt_message_assign: 1024 byte copy of everything behind the head
+    for t in sizes(1024):
+        key = rng.choice([b"key", b"path.to.item", b"k"])
+        body = list(key) + [0] + text_bytes(rng, t - len(key) - 1)
+        add(body, 1024, [("assign", {"n": 1}), ("assign", {"n": 0})])
+        add([6, 1] + body, 1026, [("assign", {"n": -1})])
+        if full:
+            body2 = list(b"a") + [0] + list(b"b") + [0] + text_bytes(rng, t - 4)
+            add(body2, 1024, [("assign", {"n": 2}), ("assign", {"n": 3})])
+    # mpt_message_property: 1024 byte copy of the argument (separator 0: the argument is everything up to a NUL)
+    for t in sizes(1024):
+        arg = list(b"name=") + text_bytes(rng, t - 5)
+        add(arg + rng.choice([[], [0, 120, 61, 49]]), 1024, [("property", {"sep": 0})])
+    # mpt_dispatch_hash: 128 byte copy of a command text that is not in one piece
+    for t in sizes(128):
+        txt = text_bytes(rng, t)
+        add([4, 0] + txt, 130, [("hash", {"x": 0}), ("evcmd", {"x": 0})])
+        add([4, 32] + txt + [32, 97], 130, [("hash", {"x": 0})])
+    # mpt_outdata_reply: 256 byte datagram buffer including the identifier
+    for t in sizes(254):
+        add(text_bytes(rng, t), 254, [("dgreply", {"idlen": 2, "id": 258})])
+    for t in ([255, 256, 257] if full else [256]):
+        add(text_bytes(rng, t), 256, [("dgreply", {"idlen": 0, "id": 0})])
+    # mpt_stream_append: the write queue grows in steps of 256 bytes
+    for t in ([255, 256, 257, 513] if full else [256, 513]):
+        add(text_bytes(rng, t), 256, [("sappend", {"kind": "cobs", "pre": [], "twice": 0}),
+                                       ("sappend", {"kind": "raw", "pre": [7, 0], "twice": 1})])
+    # mpt_output_values: 32 values per 256 byte buffer, outputs taking parts of it
+    for n in ([31, 32, 33, 65] if full else [32, 33]):
+        data = [rng.randrange(256) for _ in range(n * 16)]
+        behs.append([{"a": "init", "arg": {"data": data, "cut": [len(data)]}}] +
+                    [{"a": "outvals", "arg": {"n": n, "ld": 2, "cap": cap}} for cap in (0, 5, 255, 256, 257)])
+    return behs
+
+
 def trace_job(a):
     seed, nmsg, nlong, exe, lang = a
     t0 = time.time()
     rng = random.Random(seed)
-    hist = gen_traces(rng, nmsg, nlong, cxx=(lang == "cxx"))
+    if lang == "limits":
+        hist = gen_limit_traces(rng, nmsg)[nlong::2]       # (tier, shard) in the places of (nmsg, nlong)
+    else:
+        hist = gen_traces(rng, nmsg, nlong, cxx=(lang == "cxx"))
     recs, _ = vlib.run_driver(exe, vlib.to_script(hist), env=FAST_ASAN, timeout=1200)
     events = vlib.merge_trace(hist, recs)
     tag = "Trace_MsgUse-%s-%d" % (lang, seed)
@@ -351,6 +430,9 @@ def run_part(ck, tier):
     for s in range(ns):
         jobs.append((trace_job, (ck.seed * 1000 + 170 + s, cfg["nmsg"] // ns, max(cfg["nlong"] // ns, 1), exe, "c")))
     jobs.append((trace_job, (ck.seed * 1000 + 199, cfg["nmsg"] // 4, max(cfg["nlong"] // 4, 1), exx, "cxx")))
+    # messages sized around the consumers' buffers (128 / 256 / 1024 bytes), each in several cuts; two shards
+    jobs.append((trace_job, (ck.seed * 1000 + 160, tier, 0, exe, "limits")))
+    jobs.append((trace_job, (ck.seed * 1000 + 160, tier, 1, exe, "limits")))
     results = []
     with concurrent.futures.ProcessPoolExecutor(max_workers=6 if tier == "quick" else 8) as ex:
         futs = [ex.submit(f, a) for f, a in jobs]
